@@ -435,6 +435,30 @@ func (vc *VC) evalDSL(st *State, fi *FuncInfo, fn *types.Func, call *ast.CallExp
 		}
 		bs := body.(*Scalar).T
 		return sc(fmt.Sprintf("(%s (%s) %s)", q, strings.Join(binders, " "), bs), SBool)
+	case name == "upto" || name == "anyof":
+		// bounded quantifier, unrolled: upto(n, func(i T) bool) = body(0) && ... && body(n-1)
+		nv, ok := vc.info.Types[call.Args[0]]
+		if !ok || nv.Value == nil {
+			panic(unsupported("upto/anyof need a constant bound"))
+		}
+		n, _ := constantInt(nv)
+		lit, ok := call.Args[1].(*ast.FuncLit)
+		if !ok {
+			panic(unsupported("upto/anyof need a function literal"))
+		}
+		pn := lit.Type.Params.List[0].Names[0]
+		obj := vc.info.ObjectOf(pn)
+		srt := vc.sortOf(obj.Type())
+		var parts []string
+		for i := 0; i < n; i++ {
+			vc.bound[obj] = sc(bvLit(uint64(i), srt.Width()), srt)
+			parts = append(parts, vc.evalPureBody(st, lit.Body).(*Scalar).T)
+		}
+		delete(vc.bound, obj)
+		if name == "upto" {
+			return sc(and(parts...), SBool)
+		}
+		return sc(or(parts...), SBool)
 	case name == "imp":
 		a := vc.evalBool(st, call.Args[0])
 		b := vc.evalBool(st, call.Args[1])
@@ -460,6 +484,9 @@ func (vc *VC) evalDSL(st *State, fi *FuncInfo, fn *types.Func, call *ast.CallExp
 		return sc(and(not(eq(r.T, "nil")), not(sel(al, r.T))), SBool)
 	case strings.HasPrefix(name, "gh_"):
 		return vc.ghostRead(st, fn, call)
+	case strings.HasPrefix(name, "op_"):
+		args := vc.evalArgs(st, call)
+		return vc.evalOpaque(st, fi, args, call)
 	case strings.HasPrefix(name, "sp_") || strings.HasPrefix(name, "uf_"):
 		args := vc.evalArgs(st, call)
 		return vc.evalPure(st, fi, args, call)
@@ -734,7 +761,12 @@ func (vc *VC) callModular(st *State, fi *FuncInfo, si *SpecInfo, recv Val, args 
 	for _, c := range si.Clauses {
 		if c.Kind == "ensures" || c.Kind == "assumes" {
 			t := vc.evalClause(st, si, c.Expr, pre)
+			save := vc.curLabel
+			if save == "" {
+				vc.curLabel = "call." + key + "." + c.Name
+			}
 			vc.assume(st, t)
+			vc.curLabel = save
 		}
 	}
 	vc.unbind(b)
@@ -1052,4 +1084,57 @@ func (vc *VC) note(s string) {
 		}
 	}
 	vc.notes = append(vc.notes, s)
+}
+
+func constantInt(tv types.TypeAndValue) (int, bool) {
+	v, ok := constantInt64(tv)
+	return int(v), ok
+}
+
+// evalOpaque: an opaque pure function is an uninterpreted symbol; its definition is available only in
+// VCs of functions whose contract says reveal("<name>").
+func (vc *VC) evalOpaque(st *State, fi *FuncInfo, args []Val, call *ast.CallExpr) Val {
+	sig := fi.Obj.Type().(*types.Signature)
+	var as []Sort
+	var ts []string
+	for _, a := range args {
+		s := a.(*Scalar)
+		as = append(as, s.S)
+		ts = append(ts, s.T)
+	}
+	rs := vc.sortOf(sig.Results().At(0).Type())
+	f := vc.declareFun("op."+fi.Obj.Name(), as, rs)
+	revealed := false
+	if vc.fn != nil && vc.fn.Spec != nil {
+		for _, sel := range vc.fn.Spec.Selections {
+			if sel.Clause == "#reveal" {
+				for _, l := range sel.Labels {
+					if l == fi.Obj.Name() {
+						revealed = true
+					}
+				}
+			}
+		}
+	}
+	ax := "ax.op." + fi.Obj.Name()
+	if revealed && !vc.declared[ax] {
+		vc.declared[ax] = true
+		// forall params. f(params) = body
+		var binders, names []string
+		var vals []Val
+		for i, srt := range as {
+			vc.fresh++
+			bn := quoteName(fmt.Sprintf("a%d?%d", i, vc.fresh))
+			binders = append(binders, fmt.Sprintf("(%s %s)", bn, srt))
+			names = append(names, bn)
+			vals = append(vals, sc(bn, srt))
+		}
+		saveMode := vc.specMode
+		vc.specMode = true
+		body := vc.evalPure(st, fi, vals, call).(*Scalar).T
+		vc.specMode = saveMode
+		app := sx(f, names...)
+		vc.decls = append(vc.decls, fmt.Sprintf("(assert (forall (%s) (! (= %s %s) :pattern (%s))))", strings.Join(binders, " "), app, body, app))
+	}
+	return sc(sx(f, ts...), rs)
 }
